@@ -300,13 +300,10 @@ theorem start_counts (s : St) (i : Nat) (c : Copy) (hc : s.copies[i]? = some c)
   simp only [start, hc, hfree, Bool.false_eq_true, if_false]
   exact ⟨_, rfl, rfl, rfl, rfl, sharedLen_updCopy_succ _ _ _ c hc (fun c => by simp)⟩
 
-/-- Each execution reads its own result: if no record of the job carries the identifier of the pending
-execution `e` (which `uids_distinct` provides for records of other executions of the class, as avocado
-reports a task under its own identifier), then the record `finish` looks up and files in the node's
-results is the one this execution reported — promptly or during the polling loop.
-PARTIAL: the freshness hypothesis is stated for the single step; lifting it over whole runs (the invariant
-"no pending execution has a record yet") is not mechanised. -/
-theorem own_result_read_partial (s : St) (j : Nat) (e : Exec) (c : Copy) (st : String) (t d : Nat)
+/-- one resumption: if no record of the job carries the identifier of the pending execution `e`, then the
+record `finish` looks up and files in the node's results is the one this execution reported — promptly or
+during the polling loop (the freshness hypothesis is discharged over whole runs by `own_result_read`) -/
+theorem own_result_read_step (s : St) (j : Nat) (e : Exec) (c : Copy) (st : String) (t d : Nat)
     (hp : s.pending[j]? = some e) (hc : s.copies[e.copy]? = some c)
     (hfresh : ∀ x ∈ s.job, ¬ (x.name = e.name ∧ x.uid = e.uid))
     (hvis : d < statusTimeout) (hunk : unknownOf e.name ∈ c.results) :
@@ -326,16 +323,68 @@ theorem own_result_read_partial (s : St) (j : Nat) (e : Exec) (c : Copy) (st : S
       hpos, hvis, decide_true, if_true, lookup_append_fresh _ _ _ _ _ hfresh, record, hcont]
     exact ⟨_, rfl⟩
 
-/-- creation pre-steps of one copy carry distinct identifiers as long as the copy's own results grew in
-between (which the execution of the root node after a successful pre-step provides).
-PARTIAL: a pre-step repeated with unchanged own results (pre-step failed, root node not run) repeats its
-identifier and then reads the stale record — see the witness below. -/
-theorem pre_uids_distinct_partial (c1 c2 : Copy) (hp : c1.prePfx = c2.prePfx)
-    (hlen : c1.results.length ≠ c2.results.length) :
-    uidOf c1.prePfx c1.results.length ≠ uidOf c2.prePfx c2.results.length := by
-  intro h; rw [hp] at h; exact hlen (uidOf_inj _ h)
+/-- **Each execution reads its own result**, over whole runs: in every state reachable by ANY sequence of
+events (interleaved executions of the copies, prompt/late/never reported results, replays, creation
+attempts) from a state without executions and job records, a pending execution has no job record under its
+(name, uid) yet — so the lookup of `run_test_node`, the FIRST record with this (name, uid), finds nothing
+before this execution reports and exactly the record this execution reports afterwards, never a stale one.
+`ClassOK`: copies with equal names have equal prefixes; `PreSep`: pre-nodes are named differently from the
+nodes of the class.  (Analogue of `I2N.Props.C03.own_result_read` on the rule-level machine.) -/
+theorem own_result_read (s0 : St) (evs : List Event) (hi : s0.issued = []) (hp : s0.pending = []) (hj : s0.job = [])
+    (hc : ClassOK s0.copies) (hsep : PreSep s0.copies) :
+    ∀ e ∈ (run s0 evs).1.pending,
+      lookupJob (run s0 evs).1.job e.name e.uid = none ∧
+      ∀ st t, lookupJob ((run s0 evs).1.job ++ [{ name := e.name, uid := e.uid, status := st, time := t }])
+          e.name e.uid = some { name := e.name, uid := e.uid, status := st, time := t } := by
+  have hinv0 : ReadInv s0 :=
+    ⟨⟨by simp [hi], by simp [hi], by simp [hi]⟩, by simp [hp], by simp [hp], by simp [hj], by simp [hp]⟩
+  have hinv := run_readInv s0 evs hc hsep hinv0
+  intro e he
+  have hfresh : ∀ x ∈ (run s0 evs).1.job, ¬ (x.name = e.name ∧ x.uid = e.uid) :=
+    fun x hx h => hinv.pendFresh e he ⟨x, hx, h.1, h.2⟩
+  exact ⟨lookup_fresh_none _ _ _ hfresh, fun st t => lookup_append_fresh _ _ _ _ _ hfresh⟩
 
+/-- … and the resumption of a pending execution in any reachable state files, on its copy, exactly the
+record it reported (promptly or within the polling window).
+PARTIAL only in that the placeholder of the pending execution is assumed to be still in its copy's results
+(`hc`, `hunk`; otherwise Python's `list.remove` would raise) — the correspondence checks that (results
+ledger), it is not mechanised. -/
+theorem own_result_filed_partial (s0 : St) (evs : List Event) (hi : s0.issued = []) (hp : s0.pending = [])
+    (hj : s0.job = []) (hcl : ClassOK s0.copies) (hsep : PreSep s0.copies)
+    (j : Nat) (e : Exec) (c : Copy) (st : String) (t d : Nat)
+    (hpe : (run s0 evs).1.pending[j]? = some e) (hc : (run s0 evs).1.copies[e.copy]? = some c)
+    (hunk : unknownOf e.name ∈ c.results) (hvis : d < statusTimeout) :
+    ∃ status, (finish (run s0 evs).1 j (.reported st t d)).2 =
+      .finished e (.reported st t d) (some { name := e.name, uid := e.uid, status := st, time := t }) status := by
+  have hinv0 : ReadInv s0 :=
+    ⟨⟨by simp [hi], by simp [hi], by simp [hi]⟩, by simp [hp], by simp [hp], by simp [hj], by simp [hp]⟩
+  have hinv := run_readInv s0 evs hcl hsep hinv0
+  have he : e ∈ (run s0 evs).1.pending := List.mem_of_getElem? hpe
+  exact own_result_read_step _ j e c st t d hpe hc
+    (fun x hx h => hinv.pendFresh e he ⟨x, hx, h.1, h.2⟩) hvis hunk
 
+/-- Creation attempts (`traverse_terminal_node`, /repo ≥ 7ba7970) — along ANY sequence of events, in
+particular any number of creation attempts of one object root copy with any outcomes of the pre-step
+(acceptable, failing, late, never reported), interleaved with executions, replays and creation attempts of
+the other copies — the (name, uid) pairs of all pre-steps run are pairwise distinct.  `PreNamesInj`: the
+pre-nodes of different copies (different workers) have different names.  Invariant `PreInv`: every attempt
+leaves the copy with at least one more own result than its pre-step was started with (the main execution's
+placeholder on success, the recorded failure otherwise). -/
+theorem pre_uids_distinct (s0 : St) (evs : List Event) (h0 : s0.preIssued = []) (hn : PreNamesInj s0.copies) :
+    ((run s0 evs).1.preIssued.map (fun e => (e.name, e.uid))).Nodup := by
+  have hinv : PreInv s0 := ⟨by simp [h0], by simp [h0]⟩
+  apply pre_ids_nodup_of_preInv (run_preInv s0 evs hinv)
+  unfold PreNamesInj; rw [preStatics_run]; exact hn
+
+/-- one creation attempt, whatever its outcome: either it is not enabled / changes nothing of the ghost
+list, or it is recorded with the copy's current own result count as retry counter and the copy ends up
+with exactly one more own result -/
+theorem create_counts (s : St) (i : Nat) (o : Outcome) :
+    (createStep s i o).1.preIssued = s.preIssued ∨
+    ∃ c, s.copies[i]? = some c ∧
+      (createStep s i o).1.preIssued =
+        { copy := i, k := c.results.length, name := c.preName, uid := uidOf c.prePfx c.results.length } :: s.preIssued ∧
+      lenAt (createStep s i o).1.copies i = some (c.results.length + 1) := createStep_spec s i o
 
 /-! ## 5. The verdict part of `run_suite` -/
 
@@ -425,10 +474,43 @@ example : ((run classEx [.start 0, .start 1, .finish 0 (.reported "FAIL" 1 0), .
     [("t.nets.localhost.net2", "1r3"), ("t.nets.localhost.net1", "1r2"), ("t.nets.localhost.net2", "1r1"),
      ("t.nets.localhost.net1", "1")] := by decide
 
-/-- WITNESS (boundary of `pre_uids_distinct_partial`): a pre-step that fails leaves the root node without a
-result; repeated, it carries the same identifier and reads the stale FAIL although it reported PASS -/
-example : (run classEx [.pre 0 (.reported "FAIL" 1 0), .pre 0 (.reported "PASS" 1 0)]).2.map
-      (fun o => match o with | .preRun _ uid _ (some f) st => (uid, f.status, st) | _ => ("", "", "")) =
+example : PreSep classEx.copies := by unfold PreSep; decide
+example : PreNamesInj classEx.copies := by
+  intro i j p q hp hq h
+  match i, j with
+  | 0, 0 => rfl
+  | 1, 1 => rfl
+  | 0, 1 => simp [preStatics, classEx] at hp hq; rw [← hp, ← hq] at h; simp at h
+  | 1, 0 => simp [preStatics, classEx] at hp hq; rw [← hp, ← hq] at h; simp at h
+  | 0, j + 2 => simp [preStatics, classEx] at hq
+  | 1, j + 2 => simp [preStatics, classEx] at hq
+  | i + 2, _ => simp [preStatics, classEx] at hp
+
+/-- non-vacuity of `own_result_read`: a reachable state with two executions in flight and records of finished
+executions and of a failed creation attempt in the job result -/
+example : let s := (run classEx [.start 0, .finish 0 (.reported "FAIL" 1 0), .create 1 (.reported "ERROR" 1 0),
+      .start 0, .start 1]).1
+    (s.pending.map (fun e => e.uid), s.job.map (fun x => x.uid)) = (["1r2", "1r3"], ["1", "0"]) := by decide
+
+/-- three creation attempts of copy 0 (failed, never reported, passed), one of copy 1 in between: distinct
+pre-step identifiers `0`, `0r1`, `0r2`, each attempt reads its own result, and the main execution starts
+after the successful one -/
+example : (run classEx [.create 0 (.reported "FAIL" 1 0), .create 1 (.reported "ERROR" 1 0), .create 0 .never,
+      .create 0 (.reported "PASS" 1 0)]).2.map
+      (fun o => match o with
+        | .created p _ f st m => (p.uid, (f.map (·.status)).getD "-", st, (m.map (·.uid)).getD "-")
+        | _ => ("", "", "", "")) =
+    [("0", "FAIL", "fail", "-"), ("0", "ERROR", "error", "-"), ("0r1", "-", "error", "-"),
+     ("0r2", "PASS", "pass", "1r3")] := by decide
+
+/-- REGRESSION WITNESS (behaviour before /repo commit 7ba7970, `preStepOld`): a pre-step that fails left the
+root node without a result; repeated, it carried the same identifier and read the stale FAIL although it
+reported PASS -/
+example :
+    let r1 := preStepOld classEx 0 (.reported "FAIL" 1 0)
+    let r2 := preStepOld r1.1 0 (.reported "PASS" 1 0)
+    [r1.2, r2.2].map (fun o => match o with
+        | .created p _ (some f) st _ => (p.uid, f.status, st) | _ => ("", "", "")) =
     [("0", "FAIL", "fail"), ("0", "FAIL", "fail")] := by decide
 
 end I2N.Props.C10
